@@ -307,6 +307,8 @@ class World:
                 c.execution_options(isolation_level="AUTOCOMMIT")
             elif t0 == "F":
                 self.plan.armed.append((tok[1], tok[2]))
+            elif tok == "D":
+                self.plan.armed.clear()
             elif t0 == "W":
                 extra = [self.engine.connect() for _ in range(int(tok[1:]))]
                 for x in extra:
